@@ -4,6 +4,7 @@ C07 - a range query equals the sequence of instant queries on its step grid.
 import PromqlVerif.Proofs.Den
 import PromqlVerif.Proofs.StartInv
 import PromqlVerif.Proofs.Grid
+import PromqlVerif.Proofs.TheoremP
 namespace PromqlVerif.C07
 open PromqlVerif Val
 
@@ -85,6 +86,40 @@ otherwise differ between the two windows), every storage and every two window st
 theorem range_point_is_instant_result (c : Ctx V) (e : Expr V) (hwp : WP e) (start t : Int) :
     eval { c with start := start } t e = eval { c with start := t } t e :=
   wp_inv c start t e hwp t
+
+/-- **... and so it is for the engine**: on the verified fragment (Theorem B) the operator tree
+built for the range window and the one built for the instant query at `t` emit, at `t`, the same
+labelled vector - both are the reference value, which does not depend on the window start -/
+theorem engine_range_point_is_instant_result (c : Ctx V) (hq : c.q.noDupCheck = true) (e : Expr V)
+    (hf : Frag false e) (hwp : WP e) (start t : Int) :
+    ∃ oR oI xsR xsI, engOp { c with start := start } e = .ok oR ∧ engOp { c with start := t } e = .ok oI ∧
+      oR.step t = .ok xsR ∧ oI.step t = .ok xsI ∧ denote oR.series xsR = denote oI.series xsI := by
+  obtain ⟨oR, hoR, _, hR⟩ := frag_inv { c with start := start } hq false e hf
+  obtain ⟨oI, hoI, _, hI⟩ := frag_inv { c with start := t } hq false e hf
+  obtain ⟨xsR, h1, _, h2⟩ := hR t
+  obtain ⟨xsI, h3, _, h4⟩ := hI t
+  simp only [Bool.false_eq_true, if_false] at h2 h4
+  refine ⟨oR, oI, xsR, xsI, hoR, hoI, h1, h3, ?_⟩
+  have := range_point_is_instant_result c e hwp start t
+  rw [h2, h4] at this
+  exact Value.vec.inj (Except.ok.inj this)
+
+/-- the same through aggregations and vector matching (Theorem B up to order): the two step vectors
+are permutations of each other -/
+theorem engine_range_point_is_instant_result_up_to_order (c : Ctx V) (hq : c.q.noDupCheck = true) (e : Expr V)
+    (start t : Int) (hfR : FragP { c with start := start } e) (hfI : FragP { c with start := t } e) (hwp : WP e) :
+    ∃ oR oI xsR xsI, engOp { c with start := start } e = .ok oR ∧ engOp { c with start := t } e = .ok oI ∧
+      oR.step t = .ok xsR ∧ oI.step t = .ok xsI ∧ (denote oR.series xsR).Perm (denote oI.series xsI) := by
+  obtain ⟨oR, hoR, hR⟩ := fragP_inv { c with start := start } hq e hfR
+  obtain ⟨oI, hoI, hI⟩ := fragP_inv { c with start := t } hq e hfI
+  obtain ⟨xsR, outR, h1, h2, p1⟩ := hR t
+  obtain ⟨xsI, outI, h3, h4, p2⟩ := hI t
+  refine ⟨oR, oI, xsR, xsI, hoR, hoI, h1, h3, ?_⟩
+  have := range_point_is_instant_result c e hwp start t
+  rw [h2, h4] at this
+  have heq : outR = outI := Value.vec.inj (Except.ok.inj this)
+  subst heq
+  exact p1.trans p2.symm
 
 /-- an expression the theorem applies to: `rate(m[5m] @ 1000) + n offset 1m` after preprocessing -/
 example :
